@@ -15,6 +15,8 @@ def run(job, monitors, validated='transitions', **kw):
     if not stats.get('built', True) and 'on_build_error' not in kw:
         # a configuration that cannot be constructed explores nothing: that is a harness fault, not a silent pass
         raise RuntimeError(f'configuration did not build: {stats.get("build_error")} :: {configs.describe(job["cfg"])}')
+    if ctx.counters.get('unhandled_menu_errors'):
+        raise RuntimeError(f'an availability query raised while computing the menu and no monitor judges it: {ctx.menu_error}')
     for v in ctx.violations:
         v['warn'] = job.get('warn', 'ignore')
         v['family'] = job.get('family')
